@@ -43,8 +43,11 @@ def plan(prop: str, tier: str) -> Plan:
 class Session:
     """Real clients + loopback server inside one event loop."""
 
-    def __init__(self, key: str = calls.KEY, secret: str = calls.SECRET):
+    def __init__(self, key: str = calls.KEY, secret: str = calls.SECRET, prefix: str = "", debug_logging: bool = False):
         self.key, self.secret = key, secret
+        self.prefix = prefix            # e.g. "gateway/": the configured base URL carries a path of its own
+        self.debug_logging = debug_logging
+        self._old_level = None
 
     async def __aenter__(self):
         import aiohttp
@@ -54,7 +57,12 @@ class Session:
         self.srv = server.Loopback()
         base = await self.srv.start()
         self.srv.reply = lambda m, p: (calls.CURRENT["expect"].reply if calls.CURRENT["expect"] is not None else {})
-        ov = {"api": {"http": {"base_url": base, "timeout": 30}}}
+        ov = {"api": {"http": {"base_url": base + self.prefix, "timeout": 30}}}
+        if self.debug_logging:
+            import logging
+            lg = logging.getLogger("basana")
+            self._old_level = lg.level
+            lg.setLevel(logging.DEBUG)      # the messages go nowhere; logging is not behaviour
         self.http = aiohttp.ClientSession()
         self.bn = bn_client.APIClient(self.key, self.secret, session=self.http, config_overrides=ov)
         self.bs = bs_client.APIClient(self.key, self.secret, session=self.http, config_overrides=ov)
@@ -64,6 +72,9 @@ class Session:
         return self
 
     async def __aexit__(self, *a):
+        if self._old_level is not None:
+            import logging
+            logging.getLogger("basana").setLevel(self._old_level)
         await self.http.close()
         await self.srv.stop()
 
@@ -184,10 +195,11 @@ async def concurrent_burst(s, res: ShardResult, nonces: set, n: int) -> None:
 
 
 async def run_cases(specs: List[Dict[str, Any]], res: ShardResult, prop: str = "C16", key: str = calls.KEY,
-                    secret: str = calls.SECRET, nonces: Optional[set] = None) -> None:
+                    secret: str = calls.SECRET, nonces: Optional[set] = None, prefix: str = "",
+                    debug_logging: bool = False) -> None:
     nonces = set() if nonces is None else nonces
-    res.count("sessions:" + common.digest([key, secret], 6))
-    async with Session(key, secret) as s:
+    res.count("sessions:" + common.digest([key, secret, prefix, debug_logging], 6))
+    async with Session(key, secret, prefix, debug_logging) as s:
         for idx, spec in enumerate(specs):
             if spec.get("burst"):
                 await concurrent_burst(s, res, nonces, spec["burst"])
@@ -416,6 +428,10 @@ def run_shard(ctx: Context, res: ShardResult) -> None:
         n2 = max(40, len(specs) // 8)
         asyncio.run(run_cases(specs[:n2], res, key=calls.KEY, secret=calls.SECRET[::-1] + "-rotated", nonces=nonces))
         asyncio.run(run_cases(specs[n2:n2 + n2 // 2], res, key="another-" + calls.KEY, secret=calls.SECRET, nonces=nonces))
+        # the configured base URL has a path of its own (a gateway or proxy in front of the API); and, separately, the
+        # library's loggers at DEBUG level - whatever is transmitted is what is signed, in both set-ups
+        asyncio.run(run_cases(specs[:n2], res, nonces=nonces, prefix="gateway/v9/"))
+        asyncio.run(run_cases(specs[n2:2 * n2], res, nonces=nonces, debug_logging=True))
         # two accounts (main and sub-account) used side by side in one process: every request carries the key and the
         # signature of the client that sent it
         asyncio.run(run_cases_dual(specs[:n2], res, (calls.KEY, calls.SECRET), ("sub-" + calls.KEY, "sub-" + calls.SECRET), nonces))
